@@ -21,18 +21,23 @@ contract(T3 + 'Type3Tag.NDEF._read_ndef_data', 'C08', dict(self=NDEF3()), name='
 T4 = 'nfc.tag.tt4:'
 NDEF4 = lambda **kw: Obj(T4 + 'Type4Tag.NDEF', _partial=False, _data=None, _capacity=0, _readable=False,   # noqa
                          _writeable=False,
-                         _tag=Obj('models.tag_models:T4CardAdversary', _partial=False, commands=0), **kw)
+                         _tag=Obj(T4 + 'Type4Tag', _partial=False, _extended_length_support=False,
+                                  _dep=Obj('models.tag_models:T4CardAdversary', _partial=False, commands=0)), **kw)
+# the adversary sits behind ISO-DEP (IsoDepInitiator.exchange is under contract in C12): send_apdu and
+# transceive are the real code.  Object invariant of a discovered NDEF: short-APDU limits (MLe <= 256, MLc <= 255)
 contract(T4 + 'Type4Tag.NDEF._discover_ndef', 'C08', dict(self=NDEF4()), name='C08/tt4._discover_ndef',
          ensures=[('post.bool', 'result == True or result == False'),
                   ('post.sane', 'implies(result == True, self._nlen_size == 2 or self._nlen_size == 4)'),
-                  ('post.commands', 'self._tag.commands <= 5')],
-         raises={T4 + 'Type4TagCommandError': ['self._tag.commands <= 5']})
+                  ('post.short-apdu', 'implies(result == True, self._max_le <= 256 and self._max_lc <= 255)'),
+                  ('post.addressable', 'implies(result == True, self._nlen_size + self._capacity <= 65536)'),
+                  ('post.commands', 'self._tag._dep.commands <= 5')],
+         raises={T4 + 'Type4TagCommandError': ['self._tag._dep.commands <= 5']})
 contract(T4 + 'Type4Tag.NDEF._read_ndef_data', 'C08',
-         dict(self=NDEF4(_ndef_file=Bytes(2, 2), _nlen_size=OneOf(2, 4), _max_le=Int(0, 65535),
-                         _max_lc=Int(0, 65535), _aid=Bytes(7, 7))),
+         dict(self=NDEF4(_ndef_file=Bytes(2, 2), _nlen_size=OneOf(2, 4), _max_le=Int(0, 256),
+                         _max_lc=Int(0, 255), _aid=Bytes(7, 7))),
          name='C08/tt4._read_ndef_data', requires=['self._capacity >= 0'],
          ensures=[('post.within-capacity', 'result is None or len(result) <= self._capacity')],
          raises={},
          loops={('nfc.tag.tt4.Type4Tag.NDEF._read_ndef_data', 'While', 0): LoopSpec(
              invariant=['len(data) <= nlen', 'nlen <= self._capacity'], decreases='nlen - len(data)',
-             havoc={'data': Bytes(0, None, mutable=True), 'self._tag.commands': Int(0, None)})})
+             havoc={'data': Bytes(0, None, mutable=True), 'self._tag._dep.commands': Int(0, None)})})
